@@ -1,6 +1,144 @@
-import Summer.Model.Run
--- placeholder until the proof worker delivers (replaced by the real file)
-namespace Summer.Props.C10
-theorem placeholder : True := trivial
-end Summer.Props.C10
-#print axioms Summer.Props.C10.placeholder
+import Summer.Proofs.ExprProps
+import Mathlib.Algebra.Order.Field.Basic
+/-
+C10 — Time- and state-dependent inputs are evaluated at the current time and state
+(expression level: `Expr.eval`, `Run.evalStatic`, `Run.staticFlowWeights`, `Run.flowWeights`,
+`Run.realised`).
+
+Structural theorems: they hold for every carrier with the core classes the model is generic over,
+in particular for every ordered field (see the last `example`) and for `Rat` as executed.
+-/
+namespace Summer.C10
+open Summer Summer.Spec Summer.ExprProps Summer.Run
+
+variable {α : Type} [Zero α] [Add α] [Sub α] [Mul α] [Div α] [LT α] [DecidableLT α]
+
+/-! ### static coincidence -/
+
+/-- `C10.static_coincidence`: an expression that reaches no `model_variables` node has the same
+value (or the same failure) at every time and state. -/
+theorem static_coincidence (e : Expr α) (h : e.usesModelVars = false) (p : List (String × α))
+    (t t' : α) (x x' : List α) : e.eval ⟨p, t, x⟩ = e.eval ⟨p, t', x'⟩ :=
+  static_eval p t t' x x' e h
+
+theorem static_coincidenceList (l : List (Expr α)) (h : Expr.usesModelVarsList l = false)
+    (p : List (String × α)) (t t' : α) (x x' : List α) :
+    Expr.evalList ⟨p, t, x⟩ l = Expr.evalList ⟨p, t', x'⟩ l :=
+  static_evalList p t t' x x' l h
+
+/-- … in particular it is the value computed once by the static stage -/
+theorem static_coincidence_evalStatic (e : Expr α) (h : e.usesModelVars = false) (p : List (String × α))
+    (t : α) (x : List α) : e.eval ⟨p, t, x⟩ = evalStatic p e :=
+  (evalStatic_eq p t x e h).symm
+
+example : (Expr.mul (.param "b") (.const 2) : Expr Rat).usesModelVars = false
+    ∧ (Expr.mul (.param "b") (.const 2) : Expr Rat).eval ⟨[("b", 3)], 7, [1, 2]⟩ = some 6 := by
+  decide +kernel
+
+/-- `C10.time_only_irrelevance`: an expression without a `time` leaf does not depend on the time
+(it may depend on the state). -/
+theorem time_only_irrelevance (e : Expr α) (h : e.usesTime = false) (p : List (String × α))
+    (t t' : α) (x : List α) : e.eval ⟨p, t, x⟩ = e.eval ⟨p, t', x⟩ :=
+  timeFree_eval p t t' x e h
+
+theorem time_only_irrelevanceList (l : List (Expr α)) (h : Expr.usesTimeList l = false)
+    (p : List (String × α)) (t t' : α) (x : List α) :
+    Expr.evalList ⟨p, t, x⟩ l = Expr.evalList ⟨p, t', x⟩ l :=
+  timeFree_evalList p t t' x l h
+
+example : (Expr.mul (.param "b") (.comp 1) : Expr Rat).usesTime = false
+    ∧ (Expr.mul (.param "b") (.comp 1) : Expr Rat).usesModelVars = true
+    ∧ (Expr.mul (.param "b") (.comp 1) : Expr Rat).eval ⟨[("b", 3)], 7, [1, 2]⟩ = some 6 := by
+  decide +kernel
+
+/-! ### the static / per-evaluation split of the flow weights -/
+
+/-- `C10.split_correct`: when the static stage succeeded with `s`, the weights delivered by
+`flowWeights` at `(t, x)` are, flow by flow and in flow order, the flow's own realised weight
+evaluated at THIS `(t, x)` — whether the weight was computed statically or per evaluation, and
+irrespective of flows sharing a name or an (equal) expression.  Equality includes failure. -/
+theorem split_correct (m : Model α) (p : List (String × α)) (t : α) (x : List α) (s : List α)
+    (hs : staticFlowWeights m p = some s) :
+    flowWeights m ⟨p, t, x⟩ s = m.flows.mapM (fun f => (realised f).eval ⟨p, t, x⟩) :=
+  split_list p t x m.flows s hs
+
+/-- the two stages composed equal direct evaluation, with NO hypothesis (failure included) -/
+theorem split_correct_total (m : Model α) (p : List (String × α)) (t : α) (x : List α) :
+    (staticFlowWeights m p).bind (flowWeights m ⟨p, t, x⟩) =
+      m.flows.mapM (fun f => (realised f).eval ⟨p, t, x⟩) := by
+  cases hs : staticFlowWeights m p with
+  | some s => exact split_correct m p t x s hs
+  | none =>
+    rw [Option.bind_none]; symm
+    rw [staticFlowWeights_eq, static_none_iff] at hs
+    obtain ⟨f, hf, hu, hb⟩ := hs
+    rw [mapM_eq_none_iff]
+    refine ⟨f, hf, ?_⟩
+    have := static_eval_isSome p t x _ hu
+    rw [hb] at this
+    cases h : (realised f).eval ⟨p, t, x⟩ with
+    | none => rfl
+    | some _ => rw [h] at this; cases this
+
+/-- `C10.weight_current`, index form: the `i`-th delivered weight is the `i`-th flow's realised
+weight at the current `(t, x)`. -/
+theorem weight_current (m : Model α) (p : List (String × α)) (t : α) (x : List α) (s w : List α)
+    (hs : staticFlowWeights m p = some s) (hw : flowWeights m ⟨p, t, x⟩ s = some w) :
+    w.length = m.flows.length ∧
+      ∀ (i : Nat) (h₁ : i < m.flows.length) (h₂ : i < w.length),
+        (realised m.flows[i]).eval ⟨p, t, x⟩ = some w[i] := by
+  rw [split_correct m p t x s hs] at hw
+  exact mapM_some_getElem hw
+
+/-- when the static stage fails: exactly when some flow whose realised weight is static mentions a
+parameter that is not bound (independently of `t`, `x`) … -/
+theorem static_none_iff (m : Model α) (p : List (String × α)) :
+    staticFlowWeights m p = none ↔
+      ∃ f ∈ m.flows, (realised f).usesModelVars = false ∧ allBound p (realised f).params = false :=
+  ExprProps.static_none_iff p m.flows
+
+/-- … and the static stage never fails because of a time/state-dependent weight -/
+theorem static_some_of_bound (m : Model α) (p : List (String × α))
+    (h : ∀ f ∈ m.flows, (realised f).usesModelVars = false → allBound p (realised f).params = true) :
+    ∃ s, staticFlowWeights m p = some s := by
+  cases hs : staticFlowWeights m p with
+  | some s => exact ⟨s, rfl⟩
+  | none =>
+    obtain ⟨f, hf, hu, hb⟩ := (static_none_iff m p).1 hs
+    rw [h f hf hu] at hb; cases hb
+
+/-- non-vacuity: two flows with the same name and syntactically equal adjustments, one static and
+one time- and state-dependent weight, and an `Overwrite`; evaluated at two different `(t, x)`. -/
+example :
+    let f1 : Flow Rat := ⟨.transition, "rec", none, none, .param "g", [.mul (.const 2)]⟩
+    let f2 : Flow Rat := ⟨.transition, "rec", none, none, .mul .time (.comp 0), [.mul (.const 2)]⟩
+    let f3 : Flow Rat := ⟨.transition, "rec", none, none, .time, [.mul (.const 2), .ovr (.param "g")]⟩
+    let m : Model Rat := {
+      t0 := 0, t1 := 1, dt := 1, nTimes := 2, comps := [], origNames := [],
+      infectious := [], flows := [f1, f2, f3], strats := [], mixingCats := [[]], mixingMats := [],
+      strains := [], initDist := none, arrayPop := none, actions := [], requests := [], computed := [],
+      whitelist := [], finalized := true }
+    staticFlowWeights m [("g", 5)] = some [10, 0, 5]
+    ∧ flowWeights m ⟨[("g", 5)], 3, [7]⟩ [10, 0, 5] = some [10, 42, 5]
+    ∧ flowWeights m ⟨[("g", 5)], 4, [1]⟩ [10, 0, 5] = some [10, 8, 5]
+    ∧ staticFlowWeights m [] = none := by decide +kernel
+
+/-! ### at an arbitrary ordered field -/
+example {F : Type} [Field F] [LinearOrder F] [IsStrictOrderedRing F] (m : Model F)
+    (p : List (String × F)) (t : F) (x : List F) :
+    (staticFlowWeights m p).bind (flowWeights m ⟨p, t, x⟩) =
+      m.flows.mapM (fun f => (realised f).eval ⟨p, t, x⟩) :=
+  split_correct_total m p t x
+
+end Summer.C10
+
+#print axioms Summer.C10.static_coincidence
+#print axioms Summer.C10.static_coincidenceList
+#print axioms Summer.C10.static_coincidence_evalStatic
+#print axioms Summer.C10.time_only_irrelevance
+#print axioms Summer.C10.time_only_irrelevanceList
+#print axioms Summer.C10.split_correct
+#print axioms Summer.C10.split_correct_total
+#print axioms Summer.C10.weight_current
+#print axioms Summer.C10.static_none_iff
+#print axioms Summer.C10.static_some_of_bound
